@@ -113,8 +113,17 @@ class Oracle:
         if op not in ('set', 'delete') or node is None:
             return
         self.count('owner_checks')
+        if op == 'delete':
+            done = meta.setdefault('deletes_applied', {})
+            again = done.get(path, 0)
+            done[path] = again + 1
+        else:
+            again = 0
         if owner != sid:
             why = 'owner-changed-after-check' if seen.get(path) == sid else 'not-owner-at-check'
+            if again:
+                # this request already deleted the node once: it deletes whatever took its place without a new check
+                why = 'deleted-again-without-a-new-check'
             self.report(
                 'foreign-%s:%s' % (op, why),
                 'presence service of %s (session %#x) applies %s to %s while session %#x owns it '
